@@ -173,6 +173,9 @@ func genPredSpec(t *rapid.T, depth int) predSpec {
 		p.K = rapid.IntRange(0, 4).Draw(t, "d")
 	case "kfree", "cokfree":
 		p.K = rapid.IntRange(2, 5).Draw(t, "r")
+		if rare(t, "rejectsK1", 12) {
+			p.K = 1 // no graph with a vertex satisfies it: the search is pruned at its root and yields nothing
+		}
 	case "maxedges":
 		p.K = rapid.IntRange(0, 9).Draw(t, "c")
 	case "hfree":
@@ -761,7 +764,8 @@ func checkSaveEveryPosition(c saveEveryCase, rec *Rec) error {
 }
 
 func enumSaveEvery(yield func(saveEveryCase) bool) {
-	preds := []predSpec{{Kind: "none"}, {Kind: "kfree", K: 3}}
+	// K1-free rejects the one-vertex graph itself: the search is over after the first Next and must still save and load
+	preds := []predSpec{{Kind: "none"}, {Kind: "kfree", K: 3}, {Kind: "kfree", K: 1}, {Kind: "maxedges", K: 2}}
 	idx := 0
 	if Thorough {
 		// thousands of graphs on 10 vertices (path counters above 255, long choice stacks): every position, split in 32 slices
@@ -785,7 +789,11 @@ func enumSaveEvery(yield func(saveEveryCase) bool) {
 					if idx%NShards != Shard {
 						continue
 					}
-					if !yield(saveEveryCase{Cfg: searchCfg{N: n, M: m, Pred: p, Placement: "prune"}, A: a}) {
+					placement := "prune"
+					if p.Kind != "none" && (n+m+a)%2 == 1 {
+						placement = "preprune"
+					}
+					if !yield(saveEveryCase{Cfg: searchCfg{N: n, M: m, Pred: p, Placement: placement}, A: a}) {
 						return
 					}
 				}
